@@ -37,7 +37,7 @@ Proof. intros s body Q F. by rewrite (rollback_no_trace s body Q F). Qed.
 Print Assumptions c15_rollback_emits_nothing.
 
 Example c15_example :
-  let col := mkcol true (λ a b, b) (V8 0) ∅ in
+  let col := mkcol true (λ a b, b) (V8 0) id ∅ in
   let s := create_column coll0 1 col false in
   let t := push (push txn0 1 (mkop KPut 5 (V8 7))) 1 (mkop KPut 20000 (V8 9)) in
   (rblk <$> emitted (commit s t)) = [0; 1] ∧ (rid <$> emitted (commit s t)) = [1; 2].
